@@ -1,5 +1,5 @@
 (* C10 — handler errors reach the caller as errors with the same message; nil stays nil. *)
-From Verif Require Import Base Wire WireProofs Link LinkProofs.
+From Verif Require Import Base Wire WireProofs Link LinkProofs LinkHealthy.
 
 (* every message with a non-blank character (strings.TrimSpace semantics over unicode.IsSpace)
    is reconstructed verbatim on the caller *)
@@ -28,3 +28,22 @@ Proof.
   split; [apply tget_tset_same|]. repeat split.
 Qed.
 Print Assumptions value_accompanies_error.
+
+(* last clause, over whole runs: an application-level error never terminates the link.  Handlers
+   that return errors (FFail, FNotifyErr) and calls that get application errors back are benign
+   choices; in every benign run the link is still up and nothing was reported (the same theorem as
+   C16's first clause; the witness run contains both kinds of application error) *)
+Theorem application_errors_never_end_the_link :
+  forall calls cs s,
+    lrun fixed calls linit cs = Some s -> forallb (fun c => benign (fst c)) cs = true ->
+    bclosed s = false /\ fatal s = None /\
+    (forall e, ~ In (EvReport e) (evs s)) /\ (forall e, ~ In (EvLinkReturn e) (evs s)) /\
+    (tget (threads s) TLink = Some LBeforeRead \/ tget (threads s) TLink = Some LWaiting).
+Proof. exact healthy_link_stays_up_lemma. Qed.
+Print Assumptions application_errors_never_end_the_link.
+
+Theorem application_errors_are_benign :
+  forall m arg, benign (Env (EDeliverReq (FFail m) arg)) = true /\ benign (Env (EDeliverReq (FNotifyErr m) arg)) = true /\
+                forall id x, benign (Env (EDeliverRes id x (Some m))) = true.
+Proof. intros; repeat split. Qed.
+Print Assumptions application_errors_are_benign.
